@@ -115,6 +115,12 @@ def sortB : List Bytes → List Bytes
   | [] => []
   | x :: xs => insertB x (sortB xs)
 
+/-- drop repeated neighbours (of a sorted list: the distinct members) -/
+def dedupS : List Bytes → List Bytes
+  | [] => []
+  | [x] => [x]
+  | x :: y :: r => if x == y then dedupS (y :: r) else x :: dedupS (y :: r)
+
 def flat : List Bytes → Bytes
   | [] => []
   | x :: xs => x ++ flat xs
@@ -168,6 +174,18 @@ def enumParams : List Bytes → Bytes
   | [] => []
   | s :: ss => ekStr s ++ enumParams ss
 
+/-- `appendDelimited` of every key -/
+def frames : List Bytes → Bytes
+  | [] => []
+  | k :: ks => frame k ++ frames ks
+
+/-- `appendUnorderedTypeParamKeys`: the number of parameters, then the distinct element keys in ascending order — the key of a
+    type whose `Equals` compares the parameters as a set of a given size (Variant, Enum, Pattern) -/
+def unorderedParams (keys : List Bytes) : Bytes := ekInt keys.length ++ frames (dedupS (sortB keys))
+
+/-- the element keys of the parameters of an Enum: the marked strings, then `true` when it is case-insensitive -/
+def enumKeys (ci : Bool) (vals : List Bytes) : List Bytes := vals.map (strMark ++ ·) ++ (if ci then [boolKey true] else [])
+
 /-- the size a Tuple's `Equals` and `ToKey` look at: the given one, else the number of types -/
 def goaSize (n : Nat) : Option (Int × Int) → Int × Int
   | some s => s
@@ -182,14 +200,14 @@ def tyKey : Ty → Bytes
   | .str => [1, 0x74] ++ ekStr Ty.str.name
   | .int lo hi => [1, 0x74] ++ ekStr (Ty.int lo hi).name ++ intParams lo hi
   | .flt lo hi => [1, 0x74] ++ ekStr (Ty.flt lo hi).name ++ fltParams lo hi
-  | .enum ci vals => [1, 0x74] ++ ekStr (Ty.enum ci vals).name ++ enumParams vals ++ (if ci then ekBool true else [])
+  | .enum ci vals => [1, 0x74] ++ ekStr (Ty.enum ci vals).name ++ unorderedParams (enumKeys ci vals)
   | .arr e lo hi =>
       -- `ArrayType.Parameters()`: the element type unless it is Any (kept for the size [0,0]: `Array[0, 0]` is the
       -- type of the empty array, whose element type is Unit), the size unless it is Integer[0]
       [1, 0x74] ++ ekStr [0x41, 0x72, 0x72, 0x61, 0x79] ++
         (if e.isAny ∧ ¬ (lo = 0 ∧ hi = 0) then [] else frame (tyKey e)) ++
         (if lo = 0 ∧ hi = maxInt then [] else sizeParams lo hi)
-  | .var ts => [1, 0x74] ++ ekStr [0x56, 0x61, 0x72, 0x69, 0x61, 0x6e, 0x74] ++ tyKeys ts
+  | .var ts => [1, 0x74] ++ ekStr [0x56, 0x61, 0x72, 0x69, 0x61, 0x6e, 0x74] ++ unorderedParams (tyKeyL ts)
   | .tup ts size =>
       [1, 0x74] ++ ekStr [0x54, 0x75, 0x70, 0x6c, 0x65] ++ tyKeys ts ++ sizeParams (goaSize ts.length size).1 (goaSize ts.length size).2
   | .opt t => [1, 0x74] ++ ekStr [0x4f, 0x70, 0x74, 0x69, 0x6f, 0x6e, 0x61, 0x6c] ++ (if t.isAny then [] else frame (tyKey t))
@@ -197,6 +215,10 @@ def tyKey : Ty → Bytes
 def tyKeys : List Ty → Bytes
   | [] => []
   | t :: ts => frame (tyKey t) ++ tyKeys ts
+/-- the element keys of the members of a Variant -/
+def tyKeyL : List Ty → List Bytes
+  | [] => []
+  | t :: ts => tyKey t :: tyKeyL ts
 end
 
 mutual
